@@ -149,6 +149,15 @@ def run(ctx):
                                        "numpy/awkward == object": {"ok": not any(f["site"].startswith(("numpy", "awkward")) for f in ctx.failures)}}
 
 
+_run_without_compiled = run
+
+
+def run(ctx):
+    _run_without_compiled(ctx)
+    from tools import nbrows
+    nbrows.check(ctx, ['rotateZ', 'rotateX', 'rotateY', 'rotate_axis', 'rotate_nautical', 'rotate_quaternion', 'rotate_euler_default', 'rotate_euler_xzx', 'rotate_euler_xyx', 'rotate_euler_yxy', 'rotate_euler_yzy', 'rotate_euler_zyz', 'rotate_euler_zxz', 'rotate_euler_xzy', 'rotate_euler_xyz', 'rotate_euler_yxz', 'rotate_euler_yzx', 'rotate_euler_zyx', 'rotate_euler_zxy'], 'the rotations')
+
+
 def replay(rec):
     import vector
     f = rec.get("failure") or {}
